@@ -213,7 +213,10 @@ func (l *WAL) Open() error {
 			os.Remove(lastSegment)
 			segments = segments[:len(segments)-1]
 		} else {
-			fd, err := os.OpenFile(lastSegment, os.O_RDWR, 0666)
+			// Open in append mode: the cache loader may still truncate a corrupt tail off
+			// this segment after the writer is created, and new entries must then be
+			// written at the new end of the file, not at the old one.
+			fd, err := os.OpenFile(lastSegment, os.O_RDWR|os.O_APPEND, 0666)
 			if err != nil {
 				return err
 			}
